@@ -260,7 +260,8 @@ def handshake_history(rng, sid_n, quick):
         s = stations[i]
         pt = plaintext(rng, rng.choice([1, 16, 40, 200]))
         to_ds, from_ds, qos, hdr, (da, sa, ta), addrs = header_variant(rng, s['ap'], s['sta'], bytes([2]) + rb(rng, 5), force=rng.choice([(1, 0), (0, 1)]))
-        pn = rng.randrange(1 << 48)
+        # packet numbers of one station mostly share their upper 32 bits (the TKIP phase-1 input), in both directions
+        pn = ((s.setdefault('iv32', rng.randrange(1 << 32)) << 16) | rng.randrange(1 << 16)) if rng.random() < 0.7 else rng.randrange(1 << 48)
         # under the current session keys (or, before any handshake completed, the ones to come), sometimes under superseded ones
         stale = s['old'] is not None and rng.random() < 0.3
         key = s['old'] if stale else (s['ptk'] or s['ptks'][0])
